@@ -37,14 +37,11 @@ Proof.
     constructor; [intros []|constructor].
 Qed.
 
-Lemma fx_guard :
-  distinct_node_ids (map strip_node fx_pre) /\ forall n, In n (map strip_node fx_pre) -> is_local n = false.
+Lemma fx_guard : distinct_node_ids (map strip_node fx_pre).
 Proof.
-  split.
-  - vm_compute. split; [|split; [|exact I]]; intros x H.
-    + destruct H as [<-|[]]. reflexivity.
-    + destruct H.
-  - intros n H. vm_compute in H. destruct H as [<-|[<-|[]]]; vm_compute; reflexivity.
+  vm_compute. split; [|split; [|exact I]]; intros x H.
+  - destruct H as [<-|[]]. reflexivity.
+  - destruct H.
 Qed.
 
 Lemma fx_nameref :
